@@ -3,7 +3,7 @@
    to molli/storage/ukvfile.py by the differential correspondence of harness/c02.py on every run. *)
 From Coq Require Import NArith List Bool.
 Import ListNotations.
-From Molli Require Import Model.UKV Proofs.UKVBase Proofs.UKV Proofs.UKVCrash.
+From Molli Require Import Model.UKV Proofs.UKVBase Proofs.UKV Proofs.UKVCrash Model.Backend Proofs.Backend.
 Open Scope N_scope.
 
 (* One operation.  In any state satisfying the invariant (file = header ++ encoded records, distinct
@@ -54,6 +54,34 @@ Theorem C02_stale_refresh : forall H rs tl h m,
              /\ full H rs h' /\ md h' = m /\ closed h' = false.
 Proof. exact open_spec. Qed.
 Print Assumptions C02_stale_refresh.
+
+(* ---- Collection level (write queue, key set, any buffer size) ----
+   BInv: inside a writing session, the file is header ++ records, the UKV handle is complete and writable, and
+   the buffered puts are all valid (fresh distinct keys, sizes within limits); the collection lists only stored
+   or buffered keys. *)
+(* Inside a writing session every key the collection lists is readable, with the bytes that were put --
+   whether or not the put has reached the file yet (any bufsize). *)
+Theorem C02_listed_readable : forall H rs f b k,
+  BInv H rs f b -> In k (bkeys b) ->
+  exists v f' b', b_get f b k = (f', b', BVal v) /\ assoc (rs ++ queue b) k = Some v.
+Proof. exact listed_readable. Qed.
+Print Assumptions C02_listed_readable.
+
+(* a put of a fresh key of legal size succeeds, lists the key and keeps the session state valid, for EVERY
+   buffer size (it is written through or stays buffered) *)
+Theorem C02_collection_put : forall H rs f b k v,
+  BInv H rs f b -> ro b = false -> ~ In k (map fst (rs ++ queue b)) -> wfkv (k, v) ->
+  exists rs' f' b', b_put f b k v = (f', b', BOk) /\ BInv H rs' f' b' /\ In k (bkeys b') /\
+                    assoc (rs' ++ queue b') k = Some v.
+Proof. exact put_keeps_valid. Qed.
+Print Assumptions C02_collection_put.
+
+(* flushing valid buffered puts writes every one of them, in order, and cannot fail *)
+Theorem C02_flush_valid : forall H rs f b, BInv H rs f b ->
+  exists b', flush f b = (H ++ blocks (rs ++ queue b), b', None) /\ queue b' = [] /\ bkeys b' = bkeys b /\
+             BInv H (rs ++ queue b) (H ++ blocks (rs ++ queue b)) b'.
+Proof. exact flush_valid. Qed.
+Print Assumptions C02_flush_valid.
 
 (* Non-vacuity: a concrete disciplined history over two handles meets the hypotheses, and runs. *)
 Definition ex_H : bytes := mk_header (repeat 77 16) [1; 2] [9].
